@@ -511,6 +511,11 @@ menu! {
     (u8,), (u8, u16), (u8, u32, B), (u16, u64, u128, usize), (B, u8, u16, u32, u64), (u8, B, String, usize, u16, u128),
     (Vec<u8>, String), (Option<u16>, [u8; 2]), (Set<u8>, Map<u8, u8>, B), (Vec<B>, Option<B>, u8, usize),
     (String, String, Vec<String>), (u8, B, String, usize, Option<u8>, Vec<u8>), ((), u8), (usize, usize),
+    // elements that encode to zero bytes
+    Option<()>, Vec<()>, [(); 4], [u16; 0], Vec<[u16; 0]>, Set<()>, Map<(), [u8; 0]>, Vec<((), ())>,
+    Vec<[(); 2]>, Vec<Vec<()>>, Option<Vec<()>>, [Vec<()>; 2], Map<u8, Vec<()>>, Vec<Option<()>>,
+    (u8, Vec<()>), (Vec<()>, u8), ((), Vec<()>, ()), (Vec<()>, u128),
+    (u8, [(); 4]), ([(); 4], u8), (Set<()>, Map<(), [u8; 0]>), (u16, ()),
 }
 
 fn run_one(idx: usize, sc: &Value, st: &mut Stats) -> Option<Value> {
